@@ -401,6 +401,8 @@ def apply_event(tt_mod, objs, ev):
         return [t]
     if op in ('Svd', 'Pinv'):
         return svd_pinv_event(tt_mod, A, ev, objs)
+    if op == 'MatSvd':
+        return matsvd_event(ev)
     if op == 'Reject':
         return reject_event(tt_mod, A, B, ev)
     if op == 'TT2QTT':
@@ -428,6 +430,47 @@ def apply_event(tt_mod, objs, ev):
         A.copy().qtt2tt(nums)                                       # list argument used twice
         return res_or_self(A.qtt2tt(nums))
     raise KeyError(op)
+
+
+def matsvd_event(ev):
+    """utils.truncated_svd on an unfolding of an island: kept singular values, isometries, reconstruction"""
+    import scikit_tt.utils as utl
+    x, rd, cd = interleaved(ev['val'])
+    k0, rdk, cdk = interleaved(ev['kept'])
+    rows = int(np.prod(rd[:ev['index']]))
+    M = np.ascontiguousarray(x.reshape(rows, -1))
+    want = k0.reshape(rows, -1)
+    if np.all(M.imag == 0):
+        M, want = M.real.copy(), want.real
+    svsq = np.array(ev['svsq'], dtype=float)
+    r, rel = ev['maxrank'], ev['rel']
+    thr = (ev['thrp'] / ev['thrq']) if rel else float(ev['absT'])
+    variants = [('int', r if r else np.inf), ('numpy-int', np.int64(r) if r else np.inf)]
+    for label, cap in variants:
+        for order in ('C', 'F'):
+            Min = np.array(M, order=order)
+            u, sv, v = utl.truncated_svd(Min, threshold=thr, max_rank=cap, rel_truncation=rel)
+            tag = 'truncated_svd(threshold=%g, max_rank=%r as %s, rel_truncation=%r, %s-ordered matrix %dx%d)' % (
+                thr, cap, label, rel, order, M.shape[0], M.shape[1])
+            sq = svsq
+            if thr == 0:
+                # no threshold: the SVD returns min(rows, cols) singular values (zeros beyond the planted ones), then the cap
+                kk = min(M.shape[0], M.shape[1], r if r else 10 ** 9)
+                sq = np.concatenate([svsq, np.zeros(max(0, kk - len(svsq)))])[:kk]
+            k = len(sq)
+            if np.ndim(sv) != 1 or len(sv) != k or u.shape != (M.shape[0], k) or v.shape != (k, M.shape[1]):
+                raise Mismatch('rank', '%s: shapes u %r s %r v %r, %d singular values are to be kept' % (
+                    tag, np.shape(u), np.shape(sv), np.shape(v), k))
+            if k == 0:
+                continue
+            if np.max(np.abs(np.asarray(sv) ** 2 - sq)) > 1e-8 * max(1.0, float(sq[0])):
+                raise Mismatch('value', '%s: singular values^2 %r, exact %r' % (tag, list(np.asarray(sv) ** 2), list(sq)))
+            if np.max(np.abs(u.conj().T @ u - np.eye(k))) > 1e-9 or np.max(np.abs(v @ v.conj().T - np.eye(k))) > 1e-9:
+                raise Mismatch('isometry', '%s: factors are not isometries' % tag)
+            err = float(np.max(np.abs((u * sv) @ v - want)))
+            if err > 1e-8 * max(1.0, float(np.max(np.abs(M)))):
+                raise Mismatch('value', '%s: u diag(s) v differs from the sum of the kept terms (max abs error %.3e)' % (tag, err))
+    return []
 
 
 def interleaved(val):
